@@ -7,7 +7,7 @@ from .. import gen_pattern as gp, oracle_solve as osol
 
 ID = 'C09'
 RULE = ("three families x {Real,Log,Viterbi,Bool}: (i) dense Semiring.solve(a,b), n<=5, b with 1 or 2 dims; (ii) "
-        "PatternedTensor.solve with a a typed pattern over (T,T) and b over (T,extra...), numel(T)<=8; (iii) "
+        "PatternedTensor.solve with a a typed pattern over (T,T) and b over (T,extra...), numel(T)<=8, b optionally built on some of a's PhysicalAxis objects; (iii) "
         "multi_solve/multi_mv with 1-4 block keys of shapes {(),(2,),(3,),(2,2)}, random present/absent blocks (incl. absent "
         "diagonal blocks), dense or patterned blocks, transpose flag; entries from regimes giving spectral radius <1, =1 "
         "(dyadic stochastic blocks), >1, infinite entries, Viterbi <=0 / =0 / >0 cycles; oracle = dense SCC/Perron-Frobenius "
@@ -17,7 +17,7 @@ ASSUMPTIONS = ["entries that are infinite because a block has spectral radius ex
                "systems whose spectral radius cannot be classified exactly (non-dyadic, within 1e-6 of 1) are skipped and counted",
                "finite entries compared with |a-b| <= 1e-6*(1+|b|) (float64), infinities exactly",
                "blocks of a MultiTensor carry the semiring zero as default (as einsum results do)"]
-ESSENTIAL_LABELS = ['mode:dense', 'mode:patterned', 'mode:multi_solve', 'mode:multi_mv', 'rho<1', 'divergent', 'absent-block', 'patterned-block', 'transpose']
+ESSENTIAL_LABELS = ['mode:dense', 'mode:patterned', 'mode:multi_solve', 'mode:multi_mv', 'rho<1', 'divergent', 'absent-block', 'patterned-block', 'transpose', 'shared-axes']
 KINDS = ['real', 'log', 'viterbi', 'bool']
 INF = math.inf
 
@@ -83,18 +83,34 @@ def vals_for(kind, al):
 
 @st.composite
 def patterned_cases(draw, kind):
-    T = draw(gp.types(max_numel=8, depth=2))
+    corr = draw(st.integers(0, 3)) == 0
+    if corr:
+        # correlated-axes scenario: a product type of equal atoms, patterns that reuse axes inside and across dimensions
+        # (K3*K2, K2*K1 against K3*K3), b built on a's PhysicalAxis objects
+        m = draw(st.sampled_from([2, 2, 3]))
+        T = ['prod', [['atom', m]] * draw(st.sampled_from([2, 2, 3] if m == 2 else [2]))]
+    else:
+        T = draw(gp.types(max_numel=8, depth=2))
+    pk = dict(p_reuse=0.5, p_dense=0.0, p_bcast=0.05) if corr else {}
     extra = [draw(gp.types(max_numel=3, depth=1)) for _ in range(draw(st.sampled_from([0, 0, 1, 1, 2])))]
     zero = {'real': 0.0, 'log': -INF, 'viterbi': -INF, 'bool': False}[kind]
     if kind == 'bool':
-        a = draw(gp.tensor_specs([T, T], dtype='bool', defaults=None) if False else gp.tensor_specs([T, T], dtype='bool'))
-        b = draw(gp.tensor_specs([T] + extra, dtype='bool'))
+        a = draw(gp.tensor_specs([T, T], dtype='bool', **pk))
+        b = draw(gp.tensor_specs([T] + extra, dtype='bool', **pk))
     else:
         al = a_alphabet(draw, kind)
         dfl = (zero, zero, zero, zero, conv(kind, 0.25) if kind != 'viterbi' else -1.0)
-        a = draw(gp.tensor_specs([T, T], values=vals_for(kind, al) if kind != 'viterbi' else V_A, defaults=dfl))
-        b = draw(gp.tensor_specs([T] + extra, values=vals_for(kind, b_alphabet(kind)) if kind != 'viterbi' else V_B, defaults=dfl))
-    return {'mode': 'patterned', 'kind': kind, 'a': a, 'b': b}
+        a = draw(gp.tensor_specs([T, T], values=vals_for(kind, al) if kind != 'viterbi' else V_A, defaults=dfl, **pk))
+        b = draw(gp.tensor_specs([T] + extra, values=vals_for(kind, b_alphabet(kind)) if kind != 'viterbi' else V_B, defaults=dfl, **pk))
+    # b may be built on some of a's PhysicalAxis objects (solve renames b apart when the operands are not disjoint)
+    share = []
+    if corr or draw(st.integers(0, 2)) == 0:
+        used = set()
+        for j, nj in enumerate(b['paxes']):
+            cands = [i for i, ni in enumerate(a['paxes']) if ni == nj and i not in used]
+            if cands and draw(st.integers(0, 3)) > 0:
+                i = draw(st.sampled_from(cands)); used.add(i); share.append([i, j])
+    return {'mode': 'patterned', 'kind': kind, 'a': a, 'b': b, 'share': share}
 
 
 SHAPES = [[], [2], [3], [2, 2]]
@@ -157,6 +173,50 @@ def cases(draw, tier):
 
 def strategy(tier):
     return cases(tier)
+
+
+# ---- enumerated sub-space: every pattern of present/absent blocks of a 3x3 block system (fill-in on the diagonal, pivots
+# without a self-loop, rows depending on them) with fixed contraction weights, both transpose flags
+
+_ENUM_KEYS = ['K0', 'K1', 'K2']
+_ENUM_SHAPES = {'K0': [], 'K1': [2], 'K2': []}
+
+
+def _dense_spec(shape, value, dtype):
+    n = int(np.prod(shape)) if shape else 1
+    if dtype == 'bool':
+        return {'paxes': list(shape), 'vaxes': [{'p': i} for i in range(len(shape))], 'phys': [True] * n, 'bcast': [], 'default': False, 'dtype': 'bool'}
+    # distinct entries so that a transposed or misplaced block changes the answer
+    return {'paxes': list(shape), 'vaxes': [{'p': i} for i in range(len(shape))], 'phys': [value * (1 + 0.25 * i) for i in range(n)],
+            'bcast': [], 'default': 0.0, 'dtype': 'float64'}
+
+
+def enum_case(kind, mask, transpose):
+    a = {}
+    i = 0
+    for x in _ENUM_KEYS:
+        for y in _ENUM_KEYS:
+            if mask >> i & 1:
+                a[f'{x},{y}'] = _dense_spec(_ENUM_SHAPES[x] + _ENUM_SHAPES[y], 0.125 + 0.01 * i, 'bool' if kind == 'bool' else 'float64')
+            i += 1
+    b = {x: _dense_spec(_ENUM_SHAPES[x], 1.0 + j, 'bool' if kind == 'bool' else 'float64') for j, x in enumerate(_ENUM_KEYS)}
+    return {'mode': 'multi', 'kind': kind, 'keys': list(_ENUM_KEYS), 'shapes': dict(_ENUM_SHAPES), 'a': a, 'b': b,
+            'transpose': transpose, 'op': 'solve'}
+
+
+def enumerate_cases(tier, shard, nshards):
+    i = 0
+    for kind in ('real', 'bool'):
+        for mask in range(512):
+            for transpose in (False, True):
+                if i % nshards == shard:
+                    yield enum_case(kind, mask, transpose)
+                i += 1
+
+
+def exhaustive_note(tier):
+    return ("multi_solve on all 2^9 present/absent patterns of a 3x3 block system (block shapes (),(2,),()), fixed contraction "
+            "weights (Real) / all-true blocks (Bool), both transpose flags: 2048 cases, completed")
 
 
 # ------------------------------------------------------------------ comparison
@@ -258,7 +318,10 @@ def check(case, ctx):
         if ref is None: ctx.skip('spectral radius undecidable in floating point'); return
         crit = osol.LAST['crit'].reshape(db.shape) if kind in ('real', 'log') else None
         try:
-            a, b = gp.build_pt(case['a']), gp.build_pt(case['b'])
+            apax = []
+            a = gp.build_pt(case['a'], out_paxes=apax)
+            b = gp.build_pt(case['b'], reuse={j: apax[i] for i, j in case.get('share', [])})
+            if case.get('share'): ctx.label('shared-axes')
         except Exception as e:
             ctx.violation('construct-failed', f'{type(e).__name__}: {e}'); return
         sa, sb = snapshot(a), snapshot(b)
